@@ -95,6 +95,8 @@ TRANSLATED = {"C05": ["NAdvanceGen", "MultistageGen", "SeqGen", "HSeqGen", "Argm
 for _l in TRANSLATED.values():        # the period formula of PeriodicDiskRevolve goes wherever the sequence generators go
     if "SeqGen" in _l and "MxrrGen" not in _l:
         _l.insert(_l.index("SeqGen") + 1, "MxrrGen")
+    if "AllocPins" in _l and "AllocGen" not in _l:   # the preamble and the final allocation of allocate_snapshots, wherever its pin goes
+        _l.insert(_l.index("AllocPins"), "AllocGen")
 
 
 def translation_layer(pid, res):
